@@ -21,6 +21,10 @@ func main() {
 		probeComplete(dir, l, c)
 		return
 	}
+	if len(os.Args) > 2 && os.Args[2] == "hover" {
+		probeHover(dir, os.Args[3:])
+		return
+	}
 	if len(os.Args) > 2 && os.Args[2] == "syms" {
 		probeSyms(dir, os.Args[3:])
 		return
